@@ -1,4 +1,5 @@
 mod dispatch;
+mod kernels;
 mod prog;
 mod util;
 
@@ -115,6 +116,11 @@ fn answer(line: &str, cap: usize) -> String {
                 dump(&c, &r)
             }));
             r.unwrap_or_else(|_| "panic".to_string())
+        }
+        "fft" | "domain" | "elements" | "poly" | "polyscaled" | "binv" | "lagrange" | "vanish" | "vcoset" | "mlin"
+        | "mvan" | "bary" | "lpi" => {
+            let toks: Vec<&str> = line.split(' ').filter(|s| !s.is_empty()).collect();
+            catch_unwind(AssertUnwindSafe(|| kernels::answer(&toks))).unwrap_or_else(|_| "panic".to_string())
         }
         _ => "bad-request".to_string(),
     }
